@@ -134,7 +134,7 @@ def rand_buffer(rng):
 
 def gen_factory(rng):
     """random factory from a few graph shapes; every parameter from the PRNG"""
-    shape = rng.choice(["line", "line", "fanout", "fanin", "diamond", "two", "split", "split", "pack", "pack", "pack", "unpack", "cross", "cross"])
+    shape = rng.choice(["line", "line", "fanout", "fanin", "diamond", "two", "split", "split", "pack", "pack", "pack", "unpack", "cross", "cross", "merge", "spfan", "spfan", "chain2"])
     edges, nodes, links = [], [], []
     def E(): edges.append(rand_buffer(rng)); return len(edges) - 1
     def N(d): nodes.append(d); return len(nodes) - 1
@@ -175,6 +175,7 @@ def gen_factory(rng):
             nso = rng.choice([1, 2, 2, 3])
             sp = N(dict(kind="splitter", pd=pd(), setup=rng.choice([0, 0, 1]), blocking=rng.random() < 0.65,
                         inp=rand_policy(rng, nco), out=rand_policy(rng, nso)))
+            if rng.random() < 0.3: nodes[sp]["split_quantity"] = rng.choice([1, 2, 3])     # documented as ignored in UNPACK mode
             for _ in range(nco):
                 e = E(); links.append((e, c, sp))
             for _ in range(nso):
@@ -185,6 +186,40 @@ def gen_factory(rng):
         if shape == "unpack":
             # a splitter fed with plain items now and then (no `.items`): AttributeError path
             pass
+    elif shape == "spfan":
+        # two or three pallet sources -> buffers with different delays -> one splitter (in-edge policy under test) -> sinks
+        n = rng.choice([2, 2, 3]); nso = rng.choice([1, 2])
+        sp = N(dict(kind="splitter", pd=pd(), setup=rng.choice([0, 0, 1]), blocking=rng.random() < 0.65,
+                    inp=rand_policy(rng, n), out=rand_policy(rng, nso)))
+        for j in range(n):
+            sidx = psource(1, True); nodes[sidx]["blocking"] = True
+            nodes[sidx]["iat"] = [rng.choice([1, 2, 3, 5])]
+            a = E(); edges[a].pop("delays", None); edges[a]["delay"] = rng.choice([0, 0, 1, 2]); links.append((a, sidx, sp))
+        for _ in range(nso):
+            kk = sink(); e = E(); links.append((e, sp, kk))
+    elif shape == "chain2":
+        # two combiners in a row: the pallets the second one takes from its first in-edge arrive already loaded
+        t1 = [1, rng.choice([1, 2, 3])]; t2 = [1, rng.choice([1, 2, 3])]
+        ps = psource(1, True); i1 = psource(1, False); i2 = psource(1, False)
+        for sidx in (ps, i1, i2): nodes[sidx]["iat"] = [rng.choice([1, 1, 2])]
+        c1 = N(dict(kind="combiner", pd=pd(), target=t1, setup=0, blocking=True, out="FIRST_AVAILABLE"))
+        c2 = N(dict(kind="combiner", pd=pd(), target=t2, setup=rng.choice([0, 1]), blocking=rng.random() < 0.7, out="FIRST_AVAILABLE"))
+        k = sink()
+        for (a_, b_) in ((ps, c1), (i1, c1), (c1, c2), (i2, c2), (c2, k)):
+            e = E(); links.append((e, a_, b_))
+    elif shape == "merge":
+        # two or three sources (often in lock-step: several in-edges grant in the same instant) -> one sink with several in-edges
+        n = rng.choice([2, 2, 3]); k = sink()
+        same = rng.random() < 0.6
+        iat0 = [rng.choice([1, 2, 3])]
+        for j in range(n):
+            sidx = source(1)
+            if same: nodes[sidx]["iat"] = list(iat0)
+            if j == 0 and rng.random() < 0.4:
+                m = machine(1, 1); a = E(); b = E(); links += [(a, sidx, m), (b, m, k)]
+            else:
+                a = E(); links.append((a, sidx, k))
+            if same and rng.random() < 0.7: edges[a].pop("delays", None); edges[a]["delay"] = 0
     elif shape == "line":
         s = source(1); m = machine(1, 1); k = sink()
         a = E(); b = E(); links += [(a, s, m), (b, m, k)]
@@ -235,7 +270,7 @@ def run_factory(cfg):
 import multiprocessing
 import node_judges
 
-NODE_BUDGET = {"quick": 160, "thorough": 4000}
+NODE_BUDGET = {"quick": 400, "thorough": 4000}
 
 def _factory_chunk(args):
     seed, n = args
